@@ -76,7 +76,25 @@ func TestGovcBounded_having_case(t *testing.T) {
 			}
 			s.Emit(c)
 		}
-		time.Sleep(400 * time.Millisecond)
+		// wait until every group the predicate keeps has arrived (at most 10 s), then a little longer for a group that
+		// must not arrive
+		wantN := 0
+		for _, g := range []string{"a", "b", "c"} {
+			if pd.ok(g) {
+				wantN++
+			}
+		}
+		deadline := time.Now().Add(10 * time.Second)
+		for time.Now().Before(deadline) {
+			mu.Lock()
+			n := len(got)
+			mu.Unlock()
+			if n >= wantN {
+				break
+			}
+			time.Sleep(5 * time.Millisecond)
+		}
+		time.Sleep(150 * time.Millisecond)
 		s.Stop()
 		mu.Lock()
 		for _, g := range []string{"a", "b", "c"} {
